@@ -143,7 +143,7 @@ func c08Exec(op string) (string, *Violation) {
 }
 
 func c08Gen(r *Rng, tier string, emit func(string)) {
-	n := 400
+	n := 1200
 	if tier == "thorough" {
 		n = 8000
 	}
